@@ -291,3 +291,68 @@ void h_tensor_contractions(void)
   }
   VC_REACH();
 }
+
+/* Column / row statistics against their definitions (ring mode, cells restricted to 0..3 so that no intermediate
+ * leaves 0..127: ring arithmetic is then integer arithmetic with truncating division, the same in the routine and in
+ * the definition below).  What is decided: which cells enter which statistic, the counts and the denominators
+ * (n, n-1); sqrt is an uninterpreted function (-Dsqrt=...), rounding is not decided. */
+#ifdef VC_STATS
+static double small_cell(void)
+{
+  uint64_t v = vc_in_u64();
+  VC_ASSUME(v <= 3);
+  return (double)(int8_t)v;
+}
+void h_col_statistics(void)
+{
+  matrix *m, *cov;
+  dvector *avg, *ravg, *var, *sd, *rms;
+  double cell[GMAX][GMAX];
+  NewMatrix(&m, VC_M, VC_N);
+  for(size_t i = 0; i < VC_M; i++)
+    for(size_t j = 0; j < VC_N; j++)
+      cell[i][j] = m->data[i][j] = small_cell();
+  initDVector(&avg); initDVector(&ravg); initDVector(&var); initDVector(&sd); initDVector(&rms);
+  initMatrix(&cov);
+  MatrixColAverage(m, avg);
+  MatrixRowAverage(m, ravg);
+  MatrixColVar(m, var);
+  MatrixColSDEV(m, sd);
+  MatrixColRMS(m, rms);
+  MatrixCovariance(m, cov);
+  double nrm = Matrixnorm(m);
+  VC_CHECK("column statistics: one entry per column", avg->size == VC_N && var->size == VC_N && sd->size == VC_N && rms->size == VC_N);
+  VC_CHECK("row average: one entry per row", ravg->size == VC_M);
+  VC_CHECK("covariance is columns x columns", cov->row == VC_N && cov->col == VC_N);
+  double ssq_all = 0;
+  for(size_t j = 0; j < VC_N; j++) {
+    double s = 0, q = 0;
+    for(size_t i = 0; i < VC_M; i++) {
+      s += cell[i][j];
+      q += cell[i][j] * cell[i][j];
+    }
+    double a = s / (double)VC_M;
+    VC_CHECK("MatrixColAverage[j] == sum_i m[i][j] / rows", avg->data[j] == a);
+    double v = 0;
+    for(size_t i = 0; i < VC_M; i++)
+      v += (cell[i][j] - a) * (cell[i][j] - a);
+    v = v / (double)(VC_M - 1);
+    VC_CHECK("MatrixColVar[j] == sum_i (m[i][j] - mean_j)^2 / (rows - 1)", var->data[j] == v);
+    VC_CHECK("MatrixColSDEV[j] == sqrt(sample variance of column j)", sd->data[j] == (double)sqrt(v));
+    VC_CHECK("MatrixColRMS[j] == sqrt(sum_i m[i][j]^2 / rows)", rms->data[j] == (double)sqrt(q / (double)VC_M));
+    for(size_t k = 0; k < VC_N; k++)
+      VC_CHECK("covariance is symmetric", cov->data[j][k] == cov->data[k][j]);
+    VC_CHECK("covariance diagonal == sample variance of the column", cov->data[j][j] == v);
+  }
+  for(size_t i = 0; i < VC_M; i++) {
+    double s = 0;
+    for(size_t j = 0; j < VC_N; j++) {
+      s += cell[i][j];
+      ssq_all += cell[i][j] * cell[i][j];
+    }
+    VC_CHECK("MatrixRowAverage[i] == sum_j m[i][j] / columns", ravg->data[i] == s / (double)VC_N);
+  }
+  VC_CHECK("Matrixnorm == sqrt(sum of squared cells)", nrm == (double)sqrt(ssq_all));
+  VC_REACH();
+}
+#endif
